@@ -32,7 +32,7 @@ var c12Paths = []string{"main", "plugin-brokered", "host-brokered"}
 func init() {
 	Register(&Prop{ID: "C12",
 		Meta: Meta{Level: "fault_enumeration",
-			Rule:       "AutoMTLS host + real plugin (net/rpc, gRPC, gRPC+mux) + an intruder process that reads listener addresses from the kernel's socket table and attacks a connection path {main listener, plugin-side brokered listener, host-side brokered listener} with a credential class {plaintext, TLS without client certificate, TLS with a fresh self-signed certificate, TLS with a certificate carrying the right names but another key}, before or after the legitimate peer connects, then attempts a yamux+net/rpc call or gRPC health / PingPong / plugin-service call; and an impostor plugin that announces certificate A in the handshake and serves with certificate B. Matrix path x credential x protocol x timing enumerated, seeded timing and schedule noise on top. Oracle: no intruder call is ever answered, the plugin's served-request counter equals the legitimate host's calls, the legitimate host works or gets an error (never hangs), and against the impostor the first use fails",
+			Rule:       "AutoMTLS host + real plugin (net/rpc, gRPC, gRPC+mux) + an intruder process that reads listener addresses from the kernel's socket table and attacks a connection path {main listener, plugin-side brokered listener, host-side brokered listener} with a credential class {plaintext, TLS without client certificate, TLS with a fresh self-signed certificate, TLS with a certificate carrying the right names but another key}, before or after the legitimate peer connects, then attempts a yamux+net/rpc call or gRPC health / PingPong / plugin-service call; for gRPC+mux, where brokered connections are yamux streams of the main connection, an on-path observer parses the yamux framing on the wire and requires every stream to start, in both directions, with a TLS handshake record; and an impostor plugin that announces certificate A in the handshake and serves with certificate B. Matrix path x credential x protocol x timing enumerated, seeded timing and schedule noise on top. Oracle: no intruder call is ever answered, the plugin's served-request counter equals the legitimate host's calls, the legitimate host works or gets an error (never hangs), and against the impostor the first use fails",
 			Exhaustive: "connection path x credential class x protocol x {before, after the legitimate peer}; impostor x protocol"},
 		Plan: func(tier string, seed uint64, stage int, prev []*h.Result) []*k.Spec {
 			if stage > 0 {
